@@ -124,6 +124,13 @@ def assd(X, Y, shape):
     return 0.5 * (_asd(bX, bY) + _asd(bY, bX))
 
 
+# Optional float snapping for ASSD (see DESIGN 3, "exact-threshold hits for ASSD"): matcher and
+# decision checks install a callable (P, R, shape, model_value) -> library float of the same
+# quantity (after verifying agreement within 1e-9), so that "score exactly at the threshold" means the
+# same float on both sides. C07 never installs it.
+ASSD_SNAP = None
+
+
 def metric_value(name: str, P: frozenset, R: frozenset, shape):
     """name in IOU DSC ASSD RVD; P prediction set, R reference set (both non-empty)."""
     if name == "IOU":
@@ -133,7 +140,10 @@ def metric_value(name: str, P: frozenset, R: frozenset, shape):
     if name == "RVD":
         return rvd(P, R)
     if name == "ASSD":
-        return assd(P, R, shape)
+        v = assd(P, R, shape)
+        if ASSD_SNAP is not None:
+            v = ASSD_SNAP(P, R, shape, v)
+        return v
     raise ValueError(name)
 
 
